@@ -81,7 +81,7 @@ def v2_presigned(method="GET", path="/bkt/key", pairs=(), expires_delta=600, sec
 
 
 def post_form(key="formkey", content=b"hello form", policy=None, secret=SK, ak=AK, fields=(), mutate_fields=None,
-              expiration="2099-01-01T00:00:00.000Z", conditions=None):
+              expiration="2099-01-01T00:00:00.000Z", conditions=None, trailing_fields=()):
     if policy is None:
         policy = {"expiration": expiration, "conditions": conditions if conditions is not None else [{"bucket": "bkt"}, ["starts-with", "$key", ""]]}
     pol = base64.b64encode(json.dumps(policy).encode()).decode()
@@ -95,7 +95,10 @@ def post_form(key="formkey", content=b"hello form", policy=None, secret=SK, ak=A
     for n, v in fl:
         body += ("--%s\r\nContent-Disposition: form-data; name=\"%s\"\r\n\r\n%s\r\n" % (BOUNDARY, n, v)).encode()
     body += ("--%s\r\nContent-Disposition: form-data; name=\"file\"; filename=\"f.txt\"\r\nContent-Type: text/plain\r\n\r\n" % BOUNDARY).encode()
-    body += content + ("\r\n--%s--\r\n" % BOUNDARY).encode()
+    body += content
+    for n, v in trailing_fields:
+        body += ("\r\n--%s\r\nContent-Disposition: form-data; name=\"%s\"\r\n\r\n%s" % (BOUNDARY, n, v)).encode()
+    body += ("\r\n--%s--\r\n" % BOUNDARY).encode()
     hs = [("host", "localhost"), ("content-type", "multipart/form-data; boundary=" + BOUNDARY), ("content-length", str(len(body)))]
     return {"method": "POST", "uri": "/bkt", "headers": hdrs(hs), "body": body.hex()}
 
